@@ -189,3 +189,61 @@ func H_C18_cancel_pending() {
 		d.Stop()
 	})
 }
+
+// H_C18_reuse_after_cancel: a key is used, cancelled (possibly twice), then used again: the
+// second use must create and announce a fresh logical connection and deliver the envelope;
+// cancelling twice must not crash.
+func H_C18_reuse_after_cancel() {
+	twice := vfParam("twice", 0)
+	shared := newZZConn()
+	var mu vfMutex
+	announced := 0
+	var got []uint64
+	onNew := func(rw RpcReadWriter) {
+		vfHarnessGoroutine()
+		mu.vfLock()
+		announced++
+		mu.vfUnlock()
+		for {
+			r, err := rw.Read(context.Background())
+			if err != nil {
+				return
+			}
+			mu.vfLock()
+			got = append(got, r.Id)
+			mu.vfUnlock()
+		}
+	}
+	d := NewDemux(context.Background(), shared, func(r *Rpc) string { return r.Header.Source }, onNew)
+	go func() {
+		vfHarnessGoroutine()
+		d.Run()
+	}()
+	done := false
+	go func() {
+		shared.in <- &Rpc{Id: 1, Header: &RpcHeader{Source: "A"}}
+		// wait until envelope 1 has been consumed, then cancel the key and use it again
+		for {
+			mu.vfLock()
+			n := len(got)
+			mu.vfUnlock()
+			if n == 1 {
+				break
+			}
+			vfYield()
+		}
+		d.Cancel("A")
+		if twice == 1 {
+			d.Cancel("A")
+		}
+		shared.in <- &Rpc{Id: 2, Header: &RpcHeader{Source: "A"}}
+		done = true
+	}()
+	vfAtQuiescence(func() {
+		vfAssert(done, "script-completes")
+		vfAssert(len(got) == 2 && got[0] == 1 && got[1] == 2, "envelope-after-cancel-delivered-exactly-once-in-order")
+		vfAssert(announced == 2, "key-reused-after-cancel-gets-a-fresh-announced-connection")
+		vfReach("checked")
+		d.Stop()
+	})
+}
